@@ -33,6 +33,17 @@ def cpp_ty(t):
     return CPP_TYPES.get(t, t)
 
 
+# int_result-style exports: the success value goes through a MaybeUninit<T> out-parameter; T may itself be generic
+TUP_CPP = "template<typename A, typename B>\nstruct CTup2 {\n    A _0;\n    B _1;\n};\n"
+UNINIT_FUNCS = [
+    ("int32_t lookup_pair(CSliceRef<uint8_t> key, MaybeUninit<CTup2<CSliceRef<uint8_t>, uintptr_t>> *ok_out);",
+     "int32_t lookup_pair(CSliceRef<uint8_t> key, CTup2<CSliceRef<uint8_t>, uintptr_t> *ok_out);"),
+    ("int32_t lookup_nested(MaybeUninit<CTup2<CTup2<uint8_t, CSliceRef<uint8_t>>, CSliceRef<uint8_t>>> *ok_out, uint32_t flags);",
+     "int32_t lookup_nested(CTup2<CTup2<uint8_t, CSliceRef<uint8_t>>, CSliceRef<uint8_t>> *ok_out, uint32_t flags);"),
+    ("int32_t lookup_slice(MaybeUninit<CSliceRef<uint8_t>> *ok_out);", "int32_t lookup_slice(CSliceRef<uint8_t> *ok_out);"),
+    ("int32_t lookup_plain(MaybeUninit<uint64_t> *ok_out, MaybeUninit<Pair> *second);", "int32_t lookup_plain(uint64_t *ok_out, Pair *second);"),
+]
+
 PRELUDE_CPP = (SLICE_DOC + "template<typename T>\nstruct CSliceRef {\n    const T *data;\n    uintptr_t len;\n};\n\nstruct Pair {\n    uint8_t a;\n    uint64_t b;\n};\n\n"
                "template<typename T, typename F>\nstruct Callback {\n    T *context;\n    bool (*func)(T*, F);\n};\n\ntemplate<typename T>\nusing OpaqueCallback = Callback<void, T>;\n")
 
@@ -256,7 +267,11 @@ def random_cpp(seed, fnptr=False, wrapped=False, layout=False, plain=False, wrap
     funcs = list(rng.sample(USER_FUNCS_CPP, rng.randint(1, 3)))
     if layout:
         funcs.append(rng.choice(["extern const TypeLayout *ROOT_LAYOUT;", "const TypeLayout *get_root_layout();"]))
+    # exported functions with MaybeUninit out-parameters (legitimately rewritten by the tool: kept apart from the foreign list)
+    uninit = rng.sample(UNINIT_FUNCS, rng.randint(1, len(UNINIT_FUNCS)))
     # exported functions that mention the roots (what makes cbindgen emit them at all)
     for i, (kind, name, inst, ctx) in enumerate(m.roots):
         funcs.append("void use_root_%d(const %s *obj);" % (i, alias_name(name, inst, ctx)))
-    return m, emit_cpp(m, user_cpp=user, prelude=PRELUDE_CPP, funcs_cpp=funcs), user, funcs
+    em = emit_cpp(m, user_cpp=user, prelude=PRELUDE_CPP + "\n" + TUP_CPP, funcs_cpp=funcs + [u[0] for u in uninit])
+    em.uninit_expected = [u[1] for u in uninit]
+    return m, em, user, funcs
